@@ -857,10 +857,14 @@ func VerifC29Kept() {
 	if verifTier() == 1 {
 		m2.ForceCompression = verifChoice("force2", 2) == 1
 	}
-	kindA := verifChoice("kindA", verifKinds)
+	scenario := verifChoice("scenario", 5)
+	kindA := scenario % verifKinds
+	if verifTier() == 1 {
+		kindA = verifChoice("kindA", verifKinds)
+	}
 	kindB := (kindA + verifChoice("kindBOffset", 2)) % verifKinds
 	var pa, pb2 *verifPending
-	switch verifChoice("scenario", 5) {
+	switch scenario {
 	case 0:
 		pa, pb2 = verifPrepareRequest("a.", m1, kindA), verifPrepareRequest("b.", m1, kindB)
 		verifReach("same-marshaler")
